@@ -475,6 +475,7 @@ class SimQueue(object):
     def __init__(self, maxsize=0):
         self._items = []
         self.put_log = []   # everything ever put, in put order (oracle use)
+        self.put_stamps = []
 
     def put(self, item, block=True, timeout=None):
         s = _CURRENT
@@ -483,6 +484,7 @@ class SimQueue(object):
             s.yield_point("queue.put")
         self._items.append(item)
         self.put_log.append(item)
+        self.put_stamps.append(s.stamp() if a is not None else 0)
         if a is not None:
             s.wake(self)
             s.yield_point("queue.put.done")
@@ -501,6 +503,16 @@ class SimQueue(object):
             if not block:
                 import queue
                 raise queue.Empty()
+            if timeout is not None:
+                # a timed get on an empty queue: whether the timeout expires before somebody puts is the
+                # scheduler's decision (when nobody else can run it expires for sure)
+                if not s._runnable(exclude=a) or s.stream.chance(0.3, "get-timeout-expires"):
+                    import queue
+                    s.probe("timed_get_expired")
+                    s.yield_point("queue.get.timeout")
+                    raise queue.Empty()
+                s.force_yield("queue.get.wait")
+                continue
             s.block_on(self)
         item = self._items.pop(0)
         return item
